@@ -1,6 +1,7 @@
 package checks
 
 import (
+	"runtime/pprof"
 	"bytes"
 	"database/sql"
 	"encoding/binary"
@@ -45,6 +46,9 @@ type bagSpec struct {
 	comp       string  // "none" | "lz4" (all chunks), unless comps is set
 	comps      []string // per-chunk compression
 	repeatConn bool    // repeat every connection record in every chunk
+	// independent != 0: the bag is written by go-rosbag's Writer instead of the harness' encoder
+	// (chunk size independent-1 selects {every record its own chunk, 100 bytes, 64 KiB}; comp applies)
+	independent int
 }
 
 func bagField(name string, val []byte) []byte {
@@ -242,8 +246,15 @@ var c18Types = []struct{ typ, md5, def string }{
 // so that e.g. lz4/none/lz4 sequences occur) with the message variants fixed.
 func genBag(x *explore.Ctx, big bool) (*bagSpec, gow.Config) {
 	s := &bagSpec{}
-	mode := x.Choose("layout", 3)
+	mode := x.Choose("layout", 4)
 	idSets := [][]uint32{{0}, {65535}, {0, 1}, {0, 1, 65535}}
+	if mode == 3 {
+		// bags written by go-rosbag: contents as in mode 1 (<=2 messages, all variants) plus the
+		// fixed 3-message content, x chunk size x compression x 3 MCAP writer configurations
+		s.independent = 1 + x.Choose("layout", 3)
+		s.comp = []string{"none", "lz4"}[x.Choose("layout", 2)]
+		s.partition = [][]int{} // chunked (by the writer's own rule)
+	}
 	if mode == 2 {
 		idSets = idSets[2:]
 	}
@@ -275,11 +286,13 @@ func genBag(x *explore.Ctx, big bool) (*bagSpec, gow.Config) {
 		nm = x.Choose("op", 4)
 	case 1:
 		nm = x.Choose("op", 3)
+	case 3:
+		nm = 1 + x.Choose("op", 3)
 	}
 	for i := 0; i < nm; i++ {
 		c := ids[x.Choose("arg", len(ids))]
 		v := variants[(i+1)%len(variants)]
-		if mode == 1 || (mode == 0 && (nm < 3 || big)) {
+		if mode == 1 || (mode == 3 && nm < 3) || (mode == 0 && (nm < 3 || big)) {
 			v = variants[x.Choose("arg", len(variants))]
 		}
 		d := make([]byte, v.z)
@@ -301,6 +314,14 @@ func genBag(x *explore.Ctx, big bool) (*bagSpec, gow.Config) {
 			s.partition, s.comps = [][]int{all}, []string{"lz4"}
 		}
 		return s, cfg
+	}
+	if mode == 3 {
+		nc := 2 // the zstd configuration costs ~10 ms of encoder set-up per case: only with the fixed 3-message content
+		if nm == 3 {
+			nc = 3
+		}
+		wm := x.Choose("cfg", nc)
+		return s, []gow.Config{{CRC: true}, {CRC: true, Chunked: true, ChunkSize: 64}, {CRC: false, Chunked: true, ChunkSize: 1 << 20, Compression: "zstd"}}[wm]
 	}
 	// chunk partition: unchunked, or every composition of the message sequence (one empty chunk when there are no messages)
 	switch p := x.Choose("layout", 1+(1<<uint(maxInt(nm-1, 0)))); {
@@ -736,8 +757,8 @@ func convertGuard(tag string, b []byte) iso.Outcome {
 
 // C18: ROS bag and ROS 2 db3 conversion keeps every message, in order.
 func C18(r *chk.Run) {
-	r.Rule("(a) every generated bag: connection id sets from {0,1,65535}, shared and distinct (type, md5) pairs incl. the same type name with different md5, two connections on one topic, <=3 messages of size {0,5[,>1 MiB]} at times {0,(1,1),(2^32-1,999999999)}, every chunk partition x {none, lz4} x connection records repeated or not, and unchunked, x 3 MCAP writer configurations; the output is decoded by the reference decoder and compared with the bag; (b) every generated SQLite database: 1..3 topics over 3 message types (nested, shared sub-types) and one non-message type, with/without the QoS column, <=3 messages incl. equal timestamps and topics without messages; (c) corruptions of a valid bag: every truncation position, and every byte position outside the header padding x widths 1/2/4 x hostile values, plus bad magic; all conversions run in isolated workers (process exit, fatal errors and stalls are observed); distinct = cases run")
-	r.Assume("the harness' bag encoder follows the ROS bag v2.0 specification; ament index trees and SQLite files are generated by the harness (github.com/mattn/go-sqlite3, in-memory)")
+	r.Rule("(a) every generated bag: connection id sets from {0,1,65535}, shared and distinct (type, md5) pairs incl. the same type name with different md5, two connections on one topic, <=3 messages of size {0,5[,>1 MiB]} at times {0,(1,1),(2^32-1,999999999)}, every chunk partition x {none, lz4} x connection records repeated or not, and unchunked, x 3 MCAP writer configurations, plus the same contents written by go-rosbag's own Writer (chunking by size {every record, 100 B, 64 KiB} x {none, lz4}); the output is decoded by the reference decoder and compared with the bag; (b) every generated SQLite database: 1..3 topics over 3 message types (nested, shared sub-types) and one non-message type, with/without the QoS column, <=3 messages incl. equal timestamps and topics without messages; (c) corruptions of a valid bag: every truncation position, and every byte position outside the header padding x widths 1/2/4 x hostile values, plus bad magic; all conversions run in isolated workers (process exit, fatal errors and stalls are observed); distinct = cases run")
+	r.Assume("the harness' bag encoder follows the ROS bag v2.0 specification (every bag it emits is read back by go-rosbag's linear and index-based readers first; a disagreement aborts the run as a harness error); ament index trees and SQLite files are generated by the harness (github.com/mattn/go-sqlite3, in-memory)")
 	big := r.Thorough()
 	thorough := r.Thorough()
 	// case lists are enumerated only by the processes that need them (parent, and the workers of that family)
@@ -773,7 +794,20 @@ func C18(r *chk.Run) {
 	fams := []fam{
 		{"bags", len(bagCases), func(i int) []iso.Outcome {
 			s, cfg := genBag(explore.Replay(bagCases[i]), big)
-			bag, order := encodeBag(s)
+			var bag []byte
+			var order []int
+			if s.independent != 0 {
+				var err error
+				bag, order, err = encodeBagIndependent(s, []int{0, 100, 1 << 16}[s.independent-1], s.comp)
+				if err != nil {
+					return []iso.Outcome{{Tag: "go-rosbag", Class: "harness", Site: "go-rosbag writer: " + err.Error()}}
+				}
+			} else {
+				bag, order = encodeBag(s)
+				if bad := crossCheckBag(s, bag, order); bad != "" {
+					return []iso.Outcome{{Tag: "go-rosbag", Class: "harness", Site: bad}}
+				}
+			}
 			var cls, what string
 			o := iso.Guard("Bag2MCAP", 1<<62, func(p any) string { return gow.PanicSite(p) }, func() error {
 				cls, what = checkBagConversion(s, cfg, bag, order)
@@ -851,11 +885,12 @@ func C18(r *chk.Run) {
 					t0 := time.Now()
 					o := f.fn(i)
 					if d := time.Since(t0); d > 5*time.Millisecond || i == upto {
-						fmt.Printf("%s #%d: %+v in %v\n", name, i, o, d)
+						fmt.Printf("%s #%d: %+v in %v\n   %v\n", name, i, o, d, f.desc(i))
 					}
 				}
 			}
 		}
+		pprof.StopCPUProfile()
 		os.Exit(0)
 	}
 	for _, f := range fams {
@@ -873,6 +908,16 @@ func C18(r *chk.Run) {
 		t0 := time.Now()
 		res := iso.Run("C18/"+f.name, f.n, batch, r.Workers, 30*time.Second, r.Deadline, f.fn)
 		r.Count(f.name, res.Calls, res.Inputs, res.Calls, res.Exhaustive, map[string]any{"cases": f.n, "outcome_classes": res.ByClass, "wall_s": time.Since(t0).Seconds(), "worker_restarts": res.Restarts})
+		// a bag the harness generated that go-rosbag reads differently is an error of the harness, not a violation
+		kept := res.Bad[:0]
+		for _, b := range res.Bad {
+			if b.Class == "harness" {
+				r.HarnessError(fmt.Sprintf("bag case #%d: the harness' bag encoder and go-rosbag disagree: %s", b.Index, b.Site))
+				continue
+			}
+			kept = append(kept, b)
+		}
+		res.Bad = kept
 		// narrow signatures: "wrong" outcomes are grouped by their first words; log timestamps are dropped
 		for i := range res.Bad {
 			if strings.HasPrefix(res.Bad[i].Class, "exit:") && len(res.Bad[i].Site) > 20 && res.Bad[i].Site[4] == '/' && res.Bad[i].Site[10] == ' ' {
